@@ -20,6 +20,8 @@ MSA = 'merge_ska_array::MergeSkaArray'
 
 
 def run(facts, chk, tier, only=None):
+    from . import e2e2
+    chk.guard('C08.e2e', 'C08.e2e:run', lambda: e2e2.check_delete_e2e(facts, chk, 'C08.e2e', tier))
     # ---------------------------------------------------------------- arity
     def arity():
         main = facts.fn('main')
@@ -81,6 +83,58 @@ def run(facts, chk, tier, only=None):
                    evals=max(len(sw), 1), sample=dict(readers=readers, switches=[x[1] for x in sw]))
 
     # ---------------------------------------------------------------- guards in delete_samples
+    # ---------------------------------------------------------------- names from the file reach delete_samples verbatim
+    def names_route():
+        main = facts.fn('main')
+        eb = ExprBuilder(main)
+        dels = [(bb, t) for bb, t in main.calls() if (t.callee.name or '') == 'generic_modes::delete']
+        if len(dels) != 2:
+            raise AnchorLost('main: %d generic_modes::delete calls (u64 / u128 expected)' % len(dels))
+        res = []
+        def expand(e, depth=0):
+            # follow named locals (all their definitions) so that the data flow into the argument is visible
+            if not isinstance(e, tuple) or not e or depth > 60:
+                return e
+            if e[0] == 'var':
+                defs = [d for d in eb._defs.get(e[1], []) if not d[3]]
+                outs = []
+                for (dbb, idx, node, _p) in defs:
+                    if idx == 'term':
+                        outs.append(('call', node.callee.name or '?', [expand(eb.operand(a), depth + 1) for a in node.args], dbb))
+                    else:
+                        outs.append(expand(eb.rvalue(node.rv), depth + 1))
+                return ('phi', outs) if outs else e
+            return tuple(expand(x, depth + 1) if isinstance(x, tuple) else ([expand(y, depth + 1) for y in x] if isinstance(x, list) else x) for x in e)
+
+        def walk(e):
+            if isinstance(e, tuple) and e:
+                yield e
+                for x in e:
+                    if isinstance(x, tuple):
+                        yield from walk(x)
+                    elif isinstance(x, list):
+                        for y in x:
+                            yield from walk(y)
+        for bb, t in dels:
+            e = expand(eb.operand(t.args[1]))
+            calls = [x for x in walk(e) if x[0] == 'call']
+            has_reader = any(x[1].endswith('::read_name_list') for x in calls)
+            # rewriting helpers (they strip extensions and directories from sample *file* names) must not see names read from the names file
+            rewritten = [x[1] for x in calls if x[1].endswith(('::get_input_list', '::read_input_fastas')) and
+                         any(y[0] == 'call' and y[1].endswith('::read_name_list') for a in x[2] for y in walk(a))]
+            res.append((t.span, has_reader, rewritten))
+        return res
+    r = chk.guard('C08.names', 'C08.names:file-route', names_route)
+    if r is not None:
+        for sp, has_reader, rewritten in r:
+            if not has_reader:
+                chk.violation('C08.names', 'C08.names:file-route', where=sp, detail='the names passed to generic_modes::delete do not come from read_name_list on the -f route')
+            elif rewritten:
+                chk.violation('C08.names', 'C08.names:file-route', where=sp,
+                              detail='names read from the names file pass through %s (which strips sequence-file extensions and directories) before delete_samples: a sample called x.fa can no longer be named' % rewritten[0])
+            else:
+                chk.ok('C08.names', 'C08.names:file-route', sp, 'names from read_name_list reach delete_samples through iter/map(as_str)/collect only')
+
     def order():
         b = facts.fn('generic_modes::delete')
         ds = [(bb, t) for bb, t in b.calls() if (t.callee.name or '') == MSA + '::delete_samples']
